@@ -251,8 +251,9 @@ Proof.
   rewrite (type_ok_check _ Htg). exists t4. reflexivity.
 Qed.
 
-(* a string starting with the NULL-string marker byte does not survive length-prefixed mode *)
-Lemma binnull_refuted :
+(* why the round-trip theorems carry the side condition "no string starts with 0xAD" in length-prefixed
+   mode: 0xAD is the wire format's NULL-string marker (and never the first byte of valid UTF-8) *)
+Lemma null_marker_fact :
   exists (c : config) (a : ad),
     opt_no_types (c_opts c) = false /\ nul_free (ad_mytype a) /\ ad_mytype a <> [] /\
     exists t1 es my tg,
